@@ -220,7 +220,7 @@ func c07(p *Prog, r *Report) {
 	_ = openTerm
 	s := p.NewSym(fn)
 	rps := s.ff.RetPoints(verdictIndex(fn))
-	lookupPat := "lookup(param:0.originIndexKeys, call<tokens/type3.unpadOriginName>(" + innerPadded + "))"
+	lookupPat := "lookup(param:0.*, call<tokens/type3.unpadOriginName>(" + innerPadded + "))" // the registry: a map reached from the issuer, whatever the field path
 	var bad []string
 	nS := 0
 	var lookupTerm string
